@@ -509,7 +509,7 @@ func (l *Lexer) shiftEndTag() []byte {
 
 	end := len(l.text)
 	for end > 0 {
-		if c := l.text[end-1]; c == ' ' || c == '\t' || c == '\n' || c == '\r' {
+		if c := l.text[end-1]; c == ' ' || c == '\t' || c == '\n' || c == '\r' || c == '\f' {
 			end--
 			continue
 		}
